@@ -504,12 +504,18 @@ pub fn parse_choice_text(input: &str) -> Result<ParsedChoiceText, CompilerError>
         });
     }
 
+    let had_space_before_inline_divert = split_inline_divert(trimmed)
+        .and_then(|(text, _)| text.chars().last())
+        .is_some_and(char::is_whitespace);
     let (trimmed, inline_target) = split_inline_choice_divert(trimmed)?;
     let (start_text, start_tags) = split_text_and_tags(trimmed)?;
     Ok(ParsedChoiceText {
         display_text: start_text.clone(),
         selected_text: if start_text.is_empty() {
             None
+        } else if inline_target.is_some() && had_space_before_inline_divert && start_tags.is_empty() {
+            // `text -> target`: the text keeps its space and the diverted content joins it
+            Some(format!("{start_text} "))
         } else {
             Some(start_text.clone())
         },
